@@ -12,7 +12,10 @@ DYN_PAIRS = [(None, None), ({"k": "image_ref"}, {"k": "slice", "extra": 7}), ({"
              ({"k": "crop", "pad": [1, 1, 2, 0]}, {"k": "crop_mut", "pad": [2, 1, 3, 2]}),
              ({"k": "crop_ref", "pad": [0, 2, 1, 1]}, {"k": "slice", "extra": 1}),
              ({"k": "image_ref"}, {"k": "crop_mut", "pad": [0, 3, 0, 1]}),
-             ({"k": "nested", "pad": [2, 2, 3, 1]}, {"k": "nested_mut", "pad": [2, 3, 2, 2]})]
+             ({"k": "nested", "pad": [2, 2, 3, 1]}, {"k": "nested_mut", "pad": [2, 3, 2, 2]}),
+             # views far to the right in parents with few spare rows (left > parent height - view height), and the transpose
+             ({"k": "crop", "pad": [6, 0, 1, 1]}, {"k": "crop_mut", "pad": [7, 1, 0, 0]}),
+             ({"k": "crop_ref", "pad": [0, 5, 1, 0]}, {"k": "crop_mut", "pad": [1, 6, 1, 0]})]
 TYPED_PAIRS = [({"k": "typed_ref"}, {"k": "typed", "extra": 5}), ({"k": "typed"}, {"k": "typed"}),
                ({"k": "typed_ref"}, {"k": "typed_crop_mut", "pad": [1, 2, 2, 1]}),
                ({"k": "typed_crop", "pad": [1, 0, 1, 2]}, {"k": "typed", "extra": 2}),
